@@ -81,9 +81,13 @@ def _open(ctx, key):
     return ctx.is_open(key) or key in os.environ.get("VQ_ASSUME_OPEN", "").split(",")
 
 
-def _stat(key, value):
+WORST = {}  # key -> case that produced the maximum (development aid)
+
+
+def _stat(key, value, case=None):
     if value > STATS.get(key, -1.0):
         STATS[key] = float(value)
+        WORST[key] = case
 
 
 def _fail(case, msg):
@@ -306,7 +310,7 @@ def check(ctx, case):
 
     # 3a. ground truth
     L0, L0b, g0_obj, g0_probe, pred0 = _eval(ctx, case, pt, batches, lt, J, want_grad)
-    _stat("truth loss / tol [%s]" % lt, L0 / tol)
+    _stat("truth loss / tol [%s]" % lt, L0 / tol, case)
     where = "S=%d M=%d %s roi=%s descan=%s" % (S, M, case["obj_type"], case["roi"], case["descan"])
     if L0 > tol:
         rel = float(np.abs(pred0 - meas).max() / meas.max())
